@@ -193,6 +193,10 @@ func (c *composer) accRuleSet(rules []SRule, doc *Value, guard []string) bool {
 	pseudo := &SNode{Kind: SLit, Rules: rules}
 	t := pseudo.TypeName()
 	if strings.HasPrefix(t, "@") {
+		if v, ok := pseudo.BoolRule("nullable"); ok && v && doc.Kind == KNull {
+			c.feat["rule-set-reference-with-nullable"] = true
+			return true // {type: "@T", nullable: true}
+		}
 		return c.accType(t, doc, guard)
 	}
 	switch t {
